@@ -1,0 +1,106 @@
+//go:build verif
+
+package vm
+
+import (
+	"github.com/paulsonkoly/calc/memory"
+	"github.com/paulsonkoly/calc/types/bytecode"
+)
+
+// Verification hooks (build tag verif). Observation only.
+
+// VerifStepLimitHit is the panic value raised when VerifStepLimit is exceeded.
+type VerifStepLimitHit struct{ Steps int }
+
+// VerifMon is the per-process monitor state updated by the run loop.
+var VerifMon struct {
+	Steps            int           // instructions dispatched since last reset
+	StepLimit        int           // 0 = unlimited
+	LastIP           int           // ip of the last dispatched instruction
+	LastInstr        bytecode.Type // the last dispatched instruction
+	LastCtxDepth     int           // number of ancestors of the context that dispatched it
+	Shapes           [1 << 16]bool // executed (opcode, src2, src1, src0 kind) tuples, indexed by instr>>48
+	MaxSPMain        int           // max sp seen in the main memory
+	MaxSPChild       int           // max sp seen in any other memory
+	MaxStackLen      int           // max len(stack) seen in any memory
+	SampleBackEdge   bool          // count live contexts at backward jumps
+	MaxCtxAtBackEdge int
+	BackEdges        int
+}
+
+// VerifReset clears the per-statement counters (not the shape set).
+func VerifReset() {
+	VerifMon.Steps = 0
+	VerifMon.LastIP = -1
+	VerifMon.LastInstr = 0
+	VerifMon.LastCtxDepth = 0
+	VerifMon.MaxSPMain = 0
+	VerifMon.MaxSPChild = 0
+	VerifMon.MaxStackLen = 0
+	VerifMon.MaxCtxAtBackEdge = 0
+	VerifMon.BackEdges = 0
+}
+
+func verifStep(vm *Type, ctxp *context, m *memory.Type, ip int, instr bytecode.Type) {
+	mon := &VerifMon
+	mon.Steps++
+	if mon.StepLimit > 0 && mon.Steps > mon.StepLimit {
+		panic(VerifStepLimitHit{Steps: mon.Steps})
+	}
+	mon.LastIP = ip
+	mon.LastInstr = instr
+	mon.Shapes[uint64(instr)>>48] = true
+	st := m.VerifState()
+	if ctxp == vm.main {
+		mon.LastCtxDepth = 0
+		if st.SP > mon.MaxSPMain {
+			mon.MaxSPMain = st.SP
+		}
+	} else {
+		d := 0
+		for c := ctxp; c.parent != nil; c = c.parent {
+			d++
+		}
+		mon.LastCtxDepth = d
+		if st.SP > mon.MaxSPChild {
+			mon.MaxSPChild = st.SP
+		}
+	}
+	if st.StackLen > mon.MaxStackLen {
+		mon.MaxStackLen = st.StackLen
+	}
+	if mon.SampleBackEdge {
+		op := instr.OpCode()
+		back := false
+		switch op {
+		case bytecode.JMP:
+			back = instr.Src0Addr() < 0
+		case bytecode.JMPF, bytecode.JMPT:
+			back = instr.Src1Addr() < 0
+		}
+		if back {
+			mon.BackEdges++
+			if n := vm.VerifLiveContexts(); n > mon.MaxCtxAtBackEdge {
+				mon.MaxCtxAtBackEdge = n
+			}
+		}
+	}
+}
+
+// VerifMainIP returns the saved instruction pointer of the main context.
+func (vm *Type) VerifMainIP() int { return vm.main.ip }
+
+// VerifMainMemory returns the main context's memory.
+func (vm *Type) VerifMainMemory() *memory.Type { return vm.main.m }
+
+// VerifLiveContexts counts the contexts registered (transitively) under main.
+func (vm *Type) VerifLiveContexts() int { return verifCount(vm.main) }
+
+func verifCount(c *context) int {
+	n := 0
+	c.children.ForEach(func(_ uint64, child *context) bool {
+		n += 1 + verifCount(child)
+		return true
+	})
+	return n
+}
